@@ -23,7 +23,18 @@ CHECKS = {
 }
 
 # properties whose checks are registered (theorems proved, check green on the unchanged tree)
-READY = {'C16'}
+READY = {'C16', 'C12'}
+
+CHECKS['C12'] = (
+    'Lean 4 theorems: round trip parse(encodeOps ops) = annotate ops for every well-formed operation sequence (any length, nesting depth, '
+    'padded LEB128) over the REGENERATED per-configuration dispatch tables, kernel-decided equality of the regenerated opcode/name/operand-signature '
+    'tables with the DWARF 2-5 + GNU/WASM table (decide +kernel), fuel sufficiency; correspondence of parse_expr with the model on spec-encoded and raw inputs',
+    'Proof: the parse loop model returns exactly the encoded operations with offsets = prefix sums, recursively for nested blocks, for all 32 '
+    '(byte order, format, address size, version) configurations; names and opcodes are in bijection on operations. The operand signature of every opcode is '
+    'regenerated from the live dispatch closures on each run and kernel-checked against the standard table.',
+    'Hand-modelled: the parse_expr loop, read_blob and the closure shapes (recognised by introspection; unrecognised shapes are refused and break the tie theorem). '
+    'DW_OP_lo_user/hi_user are range markers, excluded from the bijection as the standard defines them. CPython recursion limit (~300 nested blocks) is outside the model.',
+    'DESIGN.md §6 C12')
 
 NOT_YET = {
 }
